@@ -52,6 +52,8 @@ class C08(Prop):
     ]
 
     def generate(self, rng, tier, n):
+        if tier == "quick":
+            yield from cases.small_sample(rng, 250)      # a slice of the exhaustive small scope
         for _ in range(n):
             yield cases.gen_case(rng)
 
@@ -112,9 +114,50 @@ class Upset:
         raise WatcherError("upset")
 
 
+def interrupting_local():
+    """Local whose first has_dead_threads evaluation is hit by a KeyboardInterrupt (a ^C in the wait loop)"""
+    from invoke.runners import Local
+
+    class L(Local):
+        fired = False
+
+        @property
+        def has_dead_threads(self):
+            if not self.fired:
+                self.fired = True
+                raise KeyboardInterrupt
+            return Local.has_dead_threads.fget(self)
+    return L
+
+
+def with_promise_local():
+    """asynchronous run whose Promise is used as a context manager (joined by __exit__)"""
+    from invoke.runners import Local
+
+    class L(Local):
+        def make_promise(self):
+            p = super().make_promise()
+            outer = self
+
+            class Managed:
+                def join(self_inner):
+                    with p as q:
+                        assert q is p
+                    return outer._verif_result
+            # Promise.__exit__ discards join()'s value: remember it through _finish
+            orig_finish = outer._finish
+
+            def finish():
+                outer._verif_result = orig_finish()
+                return outer._verif_result
+            outer._finish = finish
+            return Managed()
+    return L
+
+
 def real_soak(tier):
     """repeated real runs of every outcome class; threads, fds, zombies must not accumulate"""
-    reps = 6 if tier == "quick" else 60
+    reps = 4 if tier == "quick" else 60
     classes = [
         ("exit0", "echo hi", {}, "Result"),
         ("exit3", "echo hi; exit 3", {}, "UnexpectedExit"),
@@ -124,7 +167,13 @@ def real_soak(tier):
         ("worker-exception", "echo hi; sleep 0.05", {"watchers": [Boom()]}, "ThreadException"),
         ("start-failure", "true", {"shell": "/nonexistent/shell"}, "FileNotFoundError"),
         ("stdin", "cat", {"in_stream": "abc"}, "Result"),
+        ("idle-pipe", "echo hi", {"in_stream": "idle-pipe"}, "Result"),
+        ("interrupt", "echo hi; sleep 0.2", {"interrupt": True}, "Result"),
+        ("late-join", "echo hi", {"join_delay": 0.3}, "Result"),
+        ("with-promise", "echo hi", {"with": True}, "Result"),
+        ("disown", "true", {"disown": True}, "None"),
     ]
+    death_pids = set()        # pty children of the worker-death classes: the F-C08d mechanism
     fails, evals = [], 0
     hangs = 0
     time.sleep(0.05)
@@ -140,7 +189,25 @@ def real_soak(tier):
                         break               # a hang costs its whole bound: three are evidence enough
                     evals += 1
                     k = dict(kw, hide=True, pty=pty)
-                    if k.get("in_stream") == "abc":
+                    cls, jd, pipe_w = None, 0.0, None
+                    if k.pop("interrupt", False):
+                        cls = interrupting_local()
+                    if k.pop("with", False):
+                        if not asyn:
+                            continue
+                        cls = with_promise_local()
+                    if "join_delay" in k:
+                        jd = k.pop("join_delay")
+                        if not asyn:
+                            continue
+                    if k.get("disown"):
+                        if asyn or pty:
+                            continue               # disown+pty leaks by itself: F-C08e, replayed separately
+                    if k.get("in_stream") == "idle-pipe":
+                        rfd, pipe_w = os.pipe()
+                        k["in_stream"] = os.fdopen(rfd, "rb", 0)
+                        cmd_ = cmd
+                    elif k.get("in_stream") == "abc":
                         k["in_stream"] = io.StringIO("abc\n")
                         if pty:
                             cmd_ = "head -n1"
@@ -151,7 +218,12 @@ def real_soak(tier):
                         cmd_ = cmd
                     if asyn:
                         k["asynchronous"] = True
-                    r = rc.run_real(cmd_, bound=12.0, **k)
+                    r = rc.run_real(cmd_, bound=12.0, runner_cls=cls, join_delay=jd, **k)
+                    if pipe_w is not None:
+                        os.close(pipe_w)
+                        k["in_stream"].close()
+                    if pty and name in ("worker-exception", "watcher-error") and r.get("pid"):
+                        death_pids.add(r["pid"])
                     case = {"class": name, "pty": pty, "async": asyn}
                     if r["hang"]:
                         hangs += 1
@@ -171,6 +243,11 @@ def real_soak(tier):
     while time.time() < deadline and threading.active_count() > base_threads:
         time.sleep(0.05)
     import gc
+    # disowned Popen objects whose child was still running when they were collected are parked by the
+    # subprocess module until the next Popen is created: do what any later run would do
+    time.sleep(0.3)
+    gc.collect()
+    rc.run_real("true", hide=True, in_stream=False, bound=12).pop("runner", None)
     gc.collect()
     th, fds = threading.active_count(), rc.fd_count()
     if th > base_threads:
@@ -180,16 +257,22 @@ def real_soak(tier):
     z = rc.zombie_children()
     note_z = ""
     if z:
-        # pty children of the worker-death classes are never waited for (F-C08d)
         for pid in z:
             try:
                 os.waitpid(pid, os.WNOHANG)
             except OSError:
                 pass
-        fails.append({"case": {"zombies": len(z)}, "finding": "F-C08d",
-                      "what": "zombie children left behind by runs whose worker died"})
+        known = [pid for pid in z if pid in death_pids]
+        other = [pid for pid in z if pid not in death_pids]
+        if known:
+            # pty children of the worker-death classes are never waited for (F-C08d)
+            fails.append({"case": {"zombies": len(known), "classes": "worker death under a pty"},
+                          "finding": "F-C08d", "what": "zombie children left behind by runs whose worker died"})
+        if other:
+            fails.append({"case": {"zombies": len(other)},
+                          "what": "zombie children left behind by runs in which no worker died"})
     return {"name": "real-soak", "evaluations": evals, "failures": fails[:8],
-            "note": "%d real runs over 8 outcome classes x pty x sync/async through Local; afterwards thread count "
+            "note": "%d real runs over 13 classes (8 outcome classes, idle pipe as input stream, interrupt, late-joined and with-managed promise, disown) x pty x sync/async through Local; afterwards thread count "
                     "%d -> %d, /proc/self/fd %d -> %d, zombies %d%s" % (evals, base_threads, th, base_fds, fds,
                                                                         len(z), note_z)}
 
@@ -205,6 +288,30 @@ try:
 except BaseException as e:
     who = "PARENT" if os.getpid() == me else "ESCAPED-CHILD"
     print("%%s-RAISED %%s" %% (who, type(e).__name__), flush=True)
+'''
+
+
+SANDBOX_F = r'''
+import os, sys, tempfile
+sys.path.insert(0, %r)
+from invoke import Context
+me = os.getpid()
+real = sys.stdout
+f = tempfile.TemporaryFile("w")
+sys.stdout = f
+try:
+    r = Context().run("echo hi", pty=True, hide=True, in_stream=False, warn=True)
+    sys.stdout = real
+    who = "PARENT" if os.getpid() == me else "ESCAPED-CHILD"
+    print("%%s-OK exited=%%s stdout=%%r" %% (who, r.exited, r.stdout), flush=True)
+except BaseException as e:
+    sys.stdout = real
+    who = "PARENT" if os.getpid() == me else "ESCAPED-CHILD"
+    try:
+        os.write(2, ("%%s-RAISED %%s\\n" %% (who, type(e).__name__)).encode())
+    finally:
+        if os.getpid() != me:
+            os._exit(3)
 '''
 
 
@@ -255,13 +362,57 @@ def real_findings(tier):
     # F-C08c: the stdin worker dies (text not encodable) while the command waits for input
     evals += 1
     r = rc.run_real("cat", hide=True, in_stream=io.StringIO("é"), encoding="ascii", bound=5)
-    if r["hang"]:
+    if r["hang"] and r["outcome"] == "ThreadException" and "UnicodeEncodeError" in (r.get("thread_excs") or []):
         fails.append({"case": {"cmd": "cat", "in_stream": "StringIO('\\u00e9')", "encoding": "ascii"},
                       "finding": "F-C08c",
                       "what": "stdin worker died with UnicodeEncodeError; run() still blocked after 5 s "
                               "(join of the stdout worker has no timeout), ended only when the harness killed cat"})
-    elif r["outcome"] != "ThreadException":
-        fails.append({"case": {"cmd": "cat", "encoding": "ascii"}, "what": "outcome %s" % r["outcome"]})
+    elif r["hang"] or r["outcome"] != "ThreadException":
+        fails.append({"case": {"cmd": "cat", "encoding": "ascii"},
+                      "what": "outcome %s, hang %s, thread exceptions %s" % (r["outcome"], r["hang"], r.get("thread_excs"))})
+
+    # F-C08e: disown=True with a pty: nobody closes the pty fd or waits for the child
+    evals += 1
+    import gc
+    r = None
+    gc.collect()
+    time.sleep(0.1)
+    z0 = set(rc.zombie_children())
+    f0 = rc.fd_count()
+    pids = []
+    for _ in range(6):
+        r = rc.run_real("true", hide=True, in_stream=False, pty=True, disown=True, bound=15)
+        pids.append(r.get("pid"))
+        r.pop("runner", None)
+    time.sleep(0.5)
+    gc.collect()
+    f1 = rc.fd_count()
+    z1 = [p for p in rc.zombie_children() if p not in z0]
+    for pid in z1:
+        try:
+            os.waitpid(pid, os.WNOHANG)
+        except OSError:
+            pass
+    if f1 >= f0 + 5 and len(z1) >= 5:
+        fails.append({"case": {"disown": True, "pty": True, "runs": 6}, "finding": "F-C08e",
+                      "what": "6 disowned pty runs: /proc/self/fd %d -> %d, %d new zombie children" % (f0, f1, len(z1))})
+    elif f1 > f0 + 1 or z1:
+        fails.append({"case": {"disown": True, "pty": True, "runs": 6},
+                      "what": "fds %d -> %d, new zombies %d" % (f0, f1, len(z1))})
+
+    # F-C08f: pty=True while sys.stdout is a real file object that is not fd 1
+    evals += 1
+    p = subprocess.run([sys.executable, "-c", SANDBOX_F % core.REPO], capture_output=True, text=True, timeout=60)
+    out = p.stdout + p.stderr
+    if "PARENT-OK" in out and "ESCAPED" not in out:
+        pass
+    elif "ESCAPED-CHILD" in out:
+        fails.append({"case": {"pty": True, "sys.stdout": "open(tmpfile, 'w')"}, "finding": "F-C08f",
+                      "what": "the forked child failed in ioctl(TIOCSWINSZ) on sys.stdout.fileno() and ran the "
+                              "caller's except clause: " + out.strip()[:200]})
+    else:
+        fails.append({"case": {"pty": True, "sys.stdout": "open(tmpfile, 'w')"},
+                      "what": "unexpected behaviour: %r" % out[:300]})
 
     # F-C08d: a worker dies, the command ends later: the pty child is never waited for
     evals += 1
@@ -279,7 +430,7 @@ def real_findings(tier):
     elif r["outcome"] != "ThreadException":
         fails.append({"case": {"cmd": "echo hi; sleep 0.2", "pty": True}, "what": "outcome %s" % r["outcome"]})
     return {"name": "real-findings", "evaluations": evals, "failures": fails,
-            "note": "the four C08 defects replayed on the real Local runner (F-C08a inside a throw-away interpreter)"}
+            "note": "the six C08 defects replayed on the real Local runner (F-C08a and F-C08f inside throw-away interpreters)"}
 
 
 TERMIOS = r'''
@@ -308,6 +459,21 @@ for cmd, kw in (("true", {}), ("exit 3", {"warn": False}), ("sleep 5", {"timeout
     res.setdefault("after", []).append(termios.tcgetattr(sys.stdin) == before)
     if termios.tcgetattr(sys.stdin) != before:
         termios.tcsetattr(sys.stdin, termios.TCSANOW, before)
+# fd accounting with stdout redirected at descriptor level (`inv build > log`): _pty_size asks elsewhere
+import gc
+devnull = os.open(os.devnull, os.O_WRONLY)
+saved1 = os.dup(1)
+os.dup2(devnull, 1)
+gc.collect()
+n0 = len(os.listdir("/proc/self/fd"))
+for _ in range(8):
+    try:
+        Context().run("true", pty=True, hide=True, in_stream=False)
+    except Exception as e:
+        res.setdefault("raised_fd", []).append(type(e).__name__)
+gc.collect()
+res["fds"] = [n0, len(os.listdir("/proc/self/fd"))]
+os.dup2(saved1, 1)
 d = seen.get("during")
 res["cbreak_during"] = bool(d) and not (d[3] & termios.ICANON) and not (d[3] & termios.ECHO)
 res["icanon_before"] = bool(before[3] & termios.ICANON)
@@ -359,6 +525,10 @@ def termios_check(tier):
     if res:
         if not all(res.get("after", [False])):
             fails.append({"case": res, "what": "terminal attributes of the input stream not restored after run()"})
+        fds = res.get("fds") or [0, 0]
+        if fds[1] > fds[0] + 1:
+            fails.append({"case": res, "what": "8 pty runs with stdout redirected: file descriptors %d -> %d "
+                                              "inside the terminal-attached interpreter" % tuple(fds)})
         if not res.get("cbreak_during"):
             fails.append({"case": res, "what": "input terminal was not switched to character-buffered mode"})
     return {"name": "termios-restore", "evaluations": 4 if res else 0, "failures": fails,
